@@ -141,6 +141,10 @@ func (vc *VC) externalGlobal(g *ssa.Global, T types.Type, st *State) Val {
 		t.NonNil = true
 		return t
 	}
+	if stt, ok := T.Underlying().(*types.Struct); ok && stt.NumFields() == 0 {
+		// stateless values such as encoding/binary.BigEndian
+		return StructVal{}
+	}
 	panic(execError{"unsupported external global " + full})
 }
 
